@@ -466,7 +466,7 @@ func c12CodecStream(r *hx.Rand, tier string, n int, w func(*hx.Line), caseNo fun
 		case r.Chance(10):
 			text = strconv.Itoa(r.Intn(2000000000) - 1000000)
 		case r.Chance(10):
-			text = hx.Pick(r, `"true"`, "\"\\u0074rue\"", `9223372036854775808`, `-9223372036854775808`, `-9223372036854777856`, `9223372036854774784`, `-0.5`, `0.5`,
+			text = hx.Pick(r, `"true"`, "\"\\u0074rue\"", `9223372036854775808`, `-9223372036854775808`, `-9223372036854777856`, `9223372036854774784`, `9223371974719178752`, `9223371974719179776`, `9223371974719177728`, `9223371974719180800`, `-0.5`, `0.5`,
 				`"1700000000"`, `"2023-01-02T03:04:05.999Z"`, `"2262-04-12T00:00:00Z"`, `"9999-12-31T23:59:59Z"`, `"page"`, `"popup"`, `"touch"`, `"wap"`, `"Page"`, `"a  b"`, `" a"`,
 				`["a",["b"]]`, `[{"a":"b"}]`, `1e400`)
 		}
